@@ -195,3 +195,29 @@ def gen_diagrams(doms, boxes, max_boxes, max_width=4, diagram=monoidal.Diagram):
                     yield from rec(dom, new, bs + [b], offs + [off], depth + 1)
     for dom in doms:
         yield from rec(dom, dom, [], [], 0)
+
+
+class Hang(BaseException):
+    """raised by time_limit: the real code did not return within the budget (BaseException: not swallowed by the
+    library's own `except Exception`)"""
+
+
+class time_limit:
+    """with time_limit(s): ...   -- SIGALRM based, main thread of a driver process only.  Budgets are 3-4 orders of
+    magnitude above the normal run time of the guarded call, so a loaded machine does not trip them."""
+    def __init__(self, seconds):
+        self.seconds = seconds
+
+    def __enter__(self):
+        import signal
+
+        def handler(signum, frame):
+            raise Hang('no result after %d s' % self.seconds)
+        self.old = signal.signal(signal.SIGALRM, handler)
+        signal.alarm(self.seconds)
+
+    def __exit__(self, *exc):
+        import signal
+        signal.alarm(0)
+        signal.signal(signal.SIGALRM, self.old)
+        return False
